@@ -48,6 +48,10 @@ pub enum K {
     FlushCache,
     SwapArena,
     Burn(u16),
+    /// arena().ensure_capacity(n): may open a fresh, still unused chunk
+    Reserve(u16),
+    /// a read_n that gets nothing (EOF at once): reserves, then hands everything back
+    ReadNothing(u16),
     /// 255 = usize::MAX
     Consume(u8),
     /// 65535 = usize::MAX
@@ -94,6 +98,8 @@ impl Op {
             K::FlushCache => "flush_cache".to_string(),
             K::SwapArena => "swap_arena".to_string(),
             K::Burn(r) => format!("burn({})", r),
+            K::Reserve(n) => format!("reserve({})", n),
+            K::ReadNothing(n) => format!("read_nothing({})", n),
             K::Consume(n) => format!("consume({})", n),
             K::Advance(n) => format!("advance_slices({})", n),
             K::PopFront => "pop_front".to_string(),
@@ -135,6 +141,8 @@ impl Op {
             ("flush_cache", None) => K::FlushCache,
             ("swap_arena", None) => K::SwapArena,
             ("burn", Some(n)) => K::Burn(n as u16),
+            ("reserve", Some(n)) => K::Reserve(n as u16),
+            ("read_nothing", Some(n)) => K::ReadNothing(n as u16),
             ("consume", Some(n)) => K::Consume(n as u8),
             ("advance_slices", Some(n)) => K::Advance(n as u16),
             ("pop_front", None) => K::PopFront,
@@ -606,6 +614,20 @@ impl Exec {
                     return Err(format!("remaining() = {} after burning down to {}", arena.remaining(), r));
                 }
             }
+            K::Reserve(n) => {
+                let s = self.sides[si].as_mut().unwrap();
+                s.iov.arena().ensure_capacity(n as usize);
+                if s.iov.arena().remaining() < n as usize {
+                    return Err(format!("remaining() = {} after ensure_capacity({})", s.iov.arena().remaining(), n));
+                }
+            }
+            K::ReadNothing(n) => {
+                let s = self.sides[si].as_mut().unwrap();
+                let got = s.iov.arena().read_n(Full(&[]), n as usize, NonZeroUsize::MAX).map_err(|e| format!("read_n failed: {}", e))?;
+                if !got.slice().is_empty() {
+                    return Err("read_n returned bytes from an empty reader".into());
+                }
+            }
             K::Consume(n) => {
                 let s = self.sides[si].as_mut().unwrap();
                 let lens = s.stable_lens();
@@ -861,6 +883,7 @@ impl Exec {
 /// Runs a whole history from scratch, oracle after the last step and at the end.
 /// Returns Err(description) on a violation.
 pub fn run_history(start: Start, path: &[Op], oracle_every_step: bool) -> Result<(), String> {
+    set_breadcrumb(format!("start: {}\nhistory: {}\n", start.name(), render(path)).as_bytes());
     let body = || -> Result<(), String> {
         let mut ex = Exec::new(start);
         for (i, op) in path.iter().enumerate() {
